@@ -1290,8 +1290,10 @@ def run(ctx):
         lines.append("jointtr %s %s %d 1" % (fseqs(b1), fseqs(b2), rng.randrange(2, 4)))
     lines.append("jointeq 0,1,2 0,1,2 2 0")
     lines.append("jointeq 0,1,2 2,1,0 2 3" if not quick else "jointeq 0,1 1,0 1 3")
-    # (jointly_transformed_equally_distributed with dim=2 examines 491536 ordered pairs of pairs: too slow in the
-    #  implementation itself for a routine check; dim=1 exercises the same code path)
+    # jointly_transformed_equally_distributed with dim=2 examines 491536 ordered pairs of pairs (about 25 s in the
+    # implementation): ONE such line, up to length 2, where thousands of pairs hold - among them the pairs in which the
+    # statistics change places between the two classes; it goes first so that it overlaps with the rest of the stream
+    lines.insert(0, "jointtr 0,2,1 1,2,0 2 2")
     ctx.compare("two-classes", lines)
     # ---- malformed / glue
     lines = ["stat 32 0,1", "stat -33 0,1", "stat 100 _", "stat -1 2,0,1", "stat -32 2,0,1", "statname 32", "statname -33",
